@@ -35,9 +35,25 @@ class Exec(Engine):
             outs = nxt
             if top and fr.contract is not None and fr.contract.cuts:
                 outs = self.maybe_cut(s, outs, fr)
+            stop = fr.contract.hooks.get("stop_after_assign") if (top and fr.contract is not None) else None
+            if stop and stop in self.assigned_names([s]):
+                # region contract: only the prefix of the body up to this statement is under contract
+                self.note(f"{fr.fn_key}: region contract, body beyond the assignment of '{stop}' not explored")
+                for o in outs:
+                    if o.kind == "normal":
+                        self.emit_not_raised(fr.sub(st=o.st, spec=True), fr.contract)
+                outs = [o for o in outs if o.kind != "normal"]
             if len(outs) > self.budget_paths:
                 raise PathBudget(f"more than {self.budget_paths} paths in {fr.fn_key}")
         return outs
+
+    def emit_not_raised(self, ef, c):
+        """if-direction of `raises`: where the body carries on normally, no `iff` raise condition held at entry"""
+        for exname, sp in c.raises.items():
+            if sp.get("iff") and sp.get("when"):
+                view = self._old_view(ef.old, ef.st) if ef.old is not None else ef.st
+                f = self.truth(self.ev(ast.parse(sp["when"], mode="eval").body, ef.sub(st=view, old=None)), ef)
+                self.emit(ef, f"raises.{exname}.whenever", z3.Not(f), kind="raises")
 
     def maybe_cut(self, s, outs, fr):
         c = fr.contract
@@ -409,7 +425,14 @@ class Exec(Engine):
 
     # ------------------------------------------------------------------ try / with
     def st_Try(self, s, fr):
-        outs = self.exec_block(s.body, fr)
+        guards = {n for h in s.handlers for n in self.handler_names(h)}
+        prev = getattr(self, "_te_guard", 0)
+        if guards & {"TypeError", "Exception", "BaseException"}:
+            self._te_guard = prev + 1
+        try:
+            outs = self.exec_block(s.body, fr)
+        finally:
+            self._te_guard = prev
         res = []
         for o in outs:
             if o.kind == "raise" and s.handlers:
@@ -531,6 +554,21 @@ class Exec(Engine):
         if s.orelse:
             raise Unsupported("for-else")
         itv = self.ev(s.iter, fr)
+        pre_outs = []
+        if getattr(self, "_te_guard", 0) and itv.k == "V" and "isiterable" in self.reg.spec:
+            # inside `try: ... except TypeError`: iterating a value that is not iterable raises TypeError
+            it = self.truth(self.reg.spec["isiterable"](self, fr, itv), fr)
+            if not self.entails(fr.st, it):
+                s2 = fr.st.fork()
+                s2.assume(z3.Not(it))
+                fr.st.assume(it)
+                if self.feasible(s2):
+                    pre_outs.append(Outcome("raise", s2, exc=SExc("TypeError", line=s.lineno, origin="iter")))
+        if pre_outs:
+            return pre_outs + self._for_rest(s, fr, itv, lid, spec)
+        return self._for_rest(s, fr, itv, lid, spec)
+
+    def _for_rest(self, s, fr, itv, lid, spec):
         if spec is None and itv.k == "tuple":
             return self.unroll_for(s, itv.t, fr)
         isp = self.iterspec(itv, fr)
@@ -1016,6 +1054,9 @@ class Exec(Engine):
             recv = [p.recv] if p.recv is not None else []
             val = self.ext_value(name if p.recv is None else "." + name.split(".")[-1], recv + list(args), fr, kwargs)
             st.events.append(Event("call", name, recv + list(args), kwargs, getattr(node, "lineno", None)))
+            if name in self.reg.no_raise_ext:
+                self.assume_note(f"external {name} assumed not to raise")
+                return [Outcome("normal", st, val=val)]
             s2 = st.fork()
             return [Outcome("normal", st, val=val),
                     Outcome("raise", s2, exc=SExc("AnyError", line=getattr(node, "lineno", None), origin=name))]
@@ -1217,7 +1258,13 @@ class Exec(Engine):
                 st.assume(self.truth(self.ev(ast.parse(nw, mode="eval").body, cf), cf))
             for m in c.modifies:
                 self.havoc_target(m, cf)
-            res = self.fresh_result(c.result, short)
+            if c.pure and c.result in ("V", "any", None):
+                # a pure function: its value is a function of its arguments
+                a = p.node.args
+                order = [x.arg for x in a.posonlyargs + a.args + a.kwonlyargs]
+                res = self.ext_value(p.key, [env[nm] for nm in order if nm in env], fr)
+            else:
+                res = self.fresh_result(c.result, short)
             for gname, gkind in c.ghost_out.items():
                 st.env[gname] = fresh(gkind, "go_" + gname)
             cf.result = res
@@ -1397,6 +1444,7 @@ class Exec(Engine):
                     if c.result not in ("V", "any", None) and val.k not in ("py", "iter"):
                         val = self.coerce(val, c.result, ef) if not c.result.startswith("tuple:") else val
                     ef.result = val
+                    self.emit_not_raised(ef, c)
                     self.run_ghost(c.ghost_exit, ef)
                     for name, f in self.eval_clauses(c.ensures + c.trace, ef):
                         self.emit(ef, name, f, kind="post", line=getattr(fn, "lineno", None))
